@@ -7,7 +7,9 @@ hypothesis of `C11_one_socket_per_source_partial`), every id in `dnsreqs` carrie
 (`DnsInChans`), and both tables have one entry per key (`SrcNodup`, `DnsNodup`).  Proved here to be
 preserved by `expire_connections`, `ondns`, `onaccept_udp` and `dns_done` — the four places of
 `client.py` that write `mux.channels`, `dnsreqs` or `udp_by_src` on behalf of DNS/UDP flows.
-(`udp_done` writes none of them.)  Context ids of TCP flows (`Cb.other`) are unconstrained.
+(`udp_done` writes none of them.)  Lifted to every event of the client system (`CSys.step`, with TCP
+flows taking and returning ids as context) and to every reachable state (`C11_reachable_tables`); the
+full `C11_one_socket_per_source` follows.  Context ids of TCP flows (`Cb.other`) are unconstrained.
 Core Lean only.
 -/
 import SshuttleModel.Props.C11_Tables
@@ -210,5 +212,157 @@ theorem C10_C11_dns_done_keeps_tables (cfg : Cfg) (chan lsn : Nat) (asker : Addr
         · unfold DnsNodup
           simp only
           exact h4.sublist ((erase_sublist _ _).map _)
+
+/-- `Mux.got_packet` on the client: only the DNS reply path writes the tables. -/
+theorem C11_client_got_keeps_tables (cfg : Cfg) (f : Frame) (c c' : Client) (es : List Emit)
+    (hc : ClientTables c) (h : clientGot cfg f c = .ok (c', es)) : ClientTables c' := by
+  unfold clientGot at h
+  split at h
+  · simp only [Except.ok.injEq, Prod.mk.injEq] at h
+    obtain ⟨rfl, _⟩ := h; exact hc
+  · split at h
+    · simp only [Except.ok.injEq, Prod.mk.injEq] at h
+      obtain ⟨rfl, _⟩ := h; exact hc
+    · simp only [Except.ok.injEq, Prod.mk.injEq] at h
+      obtain ⟨rfl, _⟩ := h; exact hc
+    · exact C10_C11_dns_done_keeps_tables cfg _ _ _ _ _ c c' es hc h
+    · split at h
+      · cases h
+      · simp only [Except.ok.injEq, Prod.mk.injEq] at h
+        obtain ⟨rfl, _⟩ := h; exact hc
+
+/-- **Every client event keeps the tables consistent** — DNS capture, UDP capture, any other accept
+(sweep), a TCP flow taking or returning an id, any frame from the tunnel. -/
+theorem C11_step_keeps_tables (cfg : Cfg) (now : Nat) (s : CSys) (op : COp)
+    (hc : ClientTables s.c) : ClientTables (s.step cfg now op).c := by
+  unfold CSys.step
+  split
+  · exact hc
+  · cases op with
+    | dns cap =>
+      simp only
+      split
+      · exact hc
+      · next c' frames h => exact C10_C11_ondns_keeps_tables cfg now cap s.c c' frames hc h
+    | udp cap =>
+      simp only
+      split
+      · exact hc
+      · next c' frames h => exact C11_onaccept_udp_keeps_client_tables cfg now cap s.c c' frames hc h
+    | accept =>
+      simp only
+      split
+      · exact hc
+      · next c' frames h => exact C11_expire_keeps_tables now s.c c' frames hc h
+    | occupy id =>
+      simp only
+      split
+      · exact hc
+      · next hfree =>
+        obtain ⟨h1, h2, h3, h4⟩ := hc
+        have hfree' : hasKey id s.c.chans = false := by simpa using hfree
+        have hne : ∀ k cb, lookup k s.c.chans = some cb → id ≠ k := by
+          intro k cb hl e
+          rw [← e] at hl
+          exact (hasKey_eq_false_iff _ s.c.chans).1 hfree' _ (lookup_mem hl) rfl
+        refine ⟨?_, ?_, h3, h4⟩
+        · intro p hp
+          obtain ⟨l, hl⟩ := h1 p hp
+          exact ⟨l, by simp only; rw [lookup_set_ne _ _ (hne _ _ hl)]; exact hl⟩
+        · intro q hq
+          obtain ⟨qid, l, a, o, hl⟩ := h2 q hq
+          exact ⟨qid, l, a, o, by simp only; rw [lookup_set_ne _ _ (hne _ _ hl)]; exact hl⟩
+    | release id =>
+      simp only
+      split
+      · next hoth =>
+        obtain ⟨h1, h2, h3, h4⟩ := hc
+        refine ⟨?_, ?_, h3, h4⟩
+        · intro p hp
+          obtain ⟨l, hl⟩ := h1 p hp
+          refine ⟨l, ?_⟩
+          simp only
+          unfold erase
+          apply lookup_filter _ hl
+          simp only [decide_not, Bool.not_eq_eq_eq_not, Bool.not_true, decide_eq_false_iff_not]
+          intro e
+          rw [e, hoth] at hl
+          cases hl
+        · intro q hq
+          obtain ⟨qid, l, a, o, hl⟩ := h2 q hq
+          refine ⟨qid, l, a, o, ?_⟩
+          simp only
+          unfold erase
+          apply lookup_filter _ hl
+          simp only [decide_not, Bool.not_eq_eq_eq_not, Bool.not_true, decide_eq_false_iff_not]
+          intro e
+          rw [e, hoth] at hl
+          cases hl
+      · exact hc
+    | frame f =>
+      simp only
+      split
+      · exact hc
+      · next c' es h => exact C11_client_got_keeps_tables cfg f s.c c' es hc h
+
+/-- **Every reachable client state has consistent tables**: any sequence of events from the empty
+client, any clock readings. -/
+theorem C11_run_keeps_tables (cfg : Cfg) (s : CSys) (ops : List (Nat × COp)) (hc : ClientTables s.c) :
+    ClientTables (s.run cfg ops).c := by
+  induction ops generalizing s with
+  | nil => exact hc
+  | cons p ops ih => exact ih _ (C11_step_keeps_tables cfg p.1 s p.2 hc)
+
+theorem C11_reachable_tables (cfg : Cfg) (ops : List (Nat × COp)) :
+    ClientTables ((({} : CSys).run cfg ops).c) := by
+  apply C11_run_keeps_tables
+  refine ⟨?_, ?_, ?_, ?_⟩
+  · intro p hp; cases hp
+  · intro q hq; cases hq
+  · exact List.nodup_nil
+  · exact List.nodup_nil
+
+/-- **Distinct sources have distinct ids — full statement**, for every reachable client state (any
+history of captures, sweeps, replies and TCP flows taking and returning ids): the id a new source is
+given differs from the id of every source in the table.  (`C11_one_socket_per_source_partial` with its
+hypothesis discharged.) -/
+theorem C11_one_socket_per_source (cfg : Cfg) (ops : List (Nat × COp)) (lsn : Nat) (src : Addr)
+    (c1 : Client) (chan : Nat) (opens : List Frame)
+    (hnew : lookup src (({} : CSys).run cfg ops).c.udpBySrc = none)
+    (h : udpAlloc cfg lsn src (({} : CSys).run cfg ops).c = (c1, some (chan, opens))) :
+    ∀ p ∈ (({} : CSys).run cfg ops).c.udpBySrc, p.2.1 ≠ chan :=
+  C11_one_socket_per_source_partial cfg lsn src _ c1 chan opens (C11_reachable_tables cfg ops).1 hnew h
+
+/-- … and inside the table of every reachable state no two sources share an id, and no source's id
+is the id of a pending DNS request. -/
+theorem C11_table_ids_distinct (cfg : Cfg) (ops : List (Nat × COp)) :
+    let c := (({} : CSys).run cfg ops).c
+    (∀ p ∈ c.udpBySrc, ∀ q ∈ c.udpBySrc, p.2.1 = q.2.1 → p = q) ∧
+    (∀ p ∈ c.udpBySrc, ∀ q ∈ c.dnsreqs, p.2.1 ≠ q.1) := by
+  obtain ⟨h1, h2, h3, _⟩ := C11_reachable_tables cfg ops
+  refine ⟨?_, ?_⟩
+  · intro p hp q hq e
+    obtain ⟨l, hl⟩ := h1 p hp
+    obtain ⟨l', hl'⟩ := h1 q hq
+    rw [e, hl'] at hl
+    simp only [Option.some.injEq, Cb.udp.injEq] at hl
+    exact C11_src_nodup_unique _ h3 p hp q hq hl.2.symm
+  · intro p hp q hq e
+    obtain ⟨l, hl⟩ := h1 p hp
+    obtain ⟨qid, l', a, o, hl'⟩ := h2 q hq
+    rw [e, hl'] at hl
+    cases hl
+
+/-- Non-vacuity: a reachable state with a non-empty table, a pending DNS request and a second source
+that is given an id — the hypotheses of `C11_one_socket_per_source` hold there (a datagram from source
+`1:4000`, a DNS capture, then source `2:4001` arrives: ids 1, 2 and 3). -/
+example :
+    let cfg : Cfg := { method := .tproxy }
+    let cap : Capture := ⟨2, ⟨[49], 4000, []⟩, some ⟨[57], 53, []⟩, [44, 44]⟩
+    let src2 : Addr := ⟨[50], 4001, []⟩
+    let c := (({} : CSys).run cfg [(0, .udp cap), (100, .dns cap)]).c
+    c.udpBySrc.length = 1 ∧ c.dnsreqs.length = 1 ∧ lookup src2 c.udpBySrc = none ∧
+    (udpAlloc cfg 2 src2 c).2.map (·.1) = some 3 := by
+  decide
 
 end Sshuttle.Dgram
